@@ -71,7 +71,8 @@ DoJqEcdh ==
     /\ Is("jq_ecdh")
     /\ LET ok == JQ!JEcdhOk(e.c, e.peer)
        IN Step(/\ Has("st") /\ e.st = (IF ok THEN "ones" ELSE "zero")
-               /\ (ok => e.key = JQ!JEcdhKey(e.c, e.sk, e.peer)))
+               /\ (ok => e.key = JQ!JEcdhKey(e.c, e.sk, e.peer))
+               /\ (~ok => e.key \notin JQ!JEcdhGuesses(e.c, e.sk, e.peer)))
 \* on failure the key must depend on the local secret: two different secrets, same bad peer
 DoJqEcdhFail == Is("jq_ecdh_fail2")
                 /\ Step(~JQ!JEcdhOk(e.c, e.peer) /\ e.sk1 # e.sk2 /\ e.st1 = "zero" /\ e.st2 = "zero" /\ e.key1 # e.key2)
